@@ -27,6 +27,7 @@ type Prog struct {
 	loadErrs []string
 	wsets    map[*ssa.Function]*wset
 	pureFields map[string]bool // heap keys of function-valued fields declared pure
+	models   map[string][]*FuncContract
 }
 
 func pkgDirToPath(dir string) string {
@@ -85,10 +86,15 @@ func LoadProg(root string, patterns []string, tags string, cs *ContractSet) (*Pr
 			}
 		}
 	}
+	p.models = map[string][]*FuncContract{}
 	for _, fc := range cs.Funcs {
 		path := fc.Pkg
 		if strings.HasPrefix(path, "./") || path == "." {
 			path = pkgDirToPath(path)
+		}
+		if fc.Models != "" {
+			p.models[fc.Models] = append(p.models[fc.Models], fc)
+			continue
 		}
 		p.cindex[path+"#"+fc.Key()] = fc
 	}
